@@ -27,13 +27,28 @@ below): runs of 2-3 consecutive gap rows between contigs, runs of 1-2 gap rows i
 last contig, gap rows of 0, 1 and 2 bases, next to abutting contigs and single gaps; with maps whose breaks fall on
 every row boundary of the scaffold, one texel before and after it (at 1 bp per texel: one base), and inside every
 longer gap row, i.e. before, inside and after each gap row of a run; scaffolds that are absent from the map.
+
+Command line level (`cli_*` below).  "The configured join gap (200 bp, type scaffold)" of the statement is a constant
+of the property, not something the library caller of this module chooses: the families above build the objects
+themselves and hand BuildAssembly that gap, so they cannot see which join gap the TOOL configures.  The cli families
+therefore run the real `pretext-to-asm` (in process, temporary directory) on input assemblies written as AGP, TPF
+or FASTA whose gaps are NOT 200 bp / scaffold - every gap 100 bp, every gap of type contig, 10 bp contig gaps, no gap
+row at all (abutting contigs; one contig per scaffold), several different gaps with the first one not 200 / scaffold,
+several different gaps with the first one 200 / scaffold, a gapless first scaffold, AGP-only gap types - with maps
+that join non-neighbours (whole scaffolds fused into one, halves of a cut scaffold swapped, halves joined to other
+scaffolds, scaffolds absent from the map, trailing contigs inside the final partial texel), read the assembly
+files the tool WROTE with the small readers below (no project code) and judge them with the same oracle, JOIN being
+the (200, scaffold) of the statement.  A run whose exit status is not 0 did not complete and is not judged.
 """
 
 import itertools
 import math
+import pathlib
 import random
+import tempfile
 from fractions import Fraction
 
+from . import cli_gen
 from . import pipeline_gen as pg
 from .common import Collector
 
@@ -106,13 +121,132 @@ def gap_problems(case, out, gap_rule):
 
 
 def check(case, col, gap_rule=True, classes=()):
-    run = pg.run_case(case)
-    if run.error is not None:
-        return None
-    problems, n = gap_problems(case, run.out, gap_rule)
+    if case.get("cli"):
+        out = run_cli(case)
+        if out is None:
+            return None
+        how = case["cli"]
+        lead = f"pretext-to-asm command line (input written as {how['in']}, output read from the {how['out']} files it wrote): "
+    else:
+        run = pg.run_case(case)
+        if run.error is not None:
+            return None
+        out = run.out
+        lead = ""
+    problems, n = gap_problems(case, out, gap_rule)
     if problems:
-        col.fail("; ".join(problems[:3]), {**case, "gap_rule": gap_rule, "classes": list(classes)}, classes)
+        col.fail(lead + "; ".join(problems[:3]), {**case, "gap_rule": gap_rule, "classes": list(classes)}, classes)
     return n
+
+
+# --------------------------------------------------------------------------------------------------
+# command line level: write the inputs, run pretext-to-asm, read what it wrote (readers written here)
+# --------------------------------------------------------------------------------------------------
+
+
+def read_agp_rows(text):
+    """the rows of an AGP file the tool wrote, per object, as plain row specs"""
+    scaffolds = {}
+    for line in text.splitlines():
+        if not line.strip() or line.startswith("#"):
+            continue
+        c = line.split("\t")
+        rows = scaffolds.setdefault(c[0], [])
+        if c[4] in ("U", "N"):
+            rows.append(("G", int(c[5]), c[6]))
+        else:
+            rows.append(["F", c[5], int(c[6]), int(c[7]), {"+": 1, "-": -1}.get(c[8], 0), [t for t in c[9:] if t]])
+    return [{"name": n, "rows": r} for n, r in scaffolds.items()]
+
+
+def read_tpf_rows(text):
+    """
+    the rows of a TPF file the tool wrote.  A GAP line carries no scaffold name: it belongs to the scaffold of the
+    sequence line before it (in front of the first sequence line: to the scaffold that follows)
+    """
+    kinds = {"TYPE-2": "scaffold", "TYPE-3": "contig"}
+    scaffolds = {}
+    pending = []
+    last = None
+    for line in text.splitlines():
+        if not line.strip() or line.startswith("#"):
+            continue
+        c = line.split("\t")
+        if c[0] == "GAP":
+            gap = ("G", int(c[2]), kinds.get(c[1], c[1].lower().replace("-", "_")))
+            (scaffolds[last] if last is not None else pending).append(gap)
+            continue
+        name, span = c[1].rsplit(":", 1)
+        start, end = span.split("-")
+        rows = scaffolds.setdefault(c[2], [])
+        rows.extend(pending)
+        pending = []
+        rows.append(["F", name, int(start), int(end), {"PLUS": 1, "MINUS": -1}.get(c[3], 0), []])
+        last = c[2]
+    return [{"name": n, "rows": r} for n, r in scaffolds.items()]
+
+
+def fasta_ok(inp):
+    """
+    the input spec is what a FASTA file denotes: per scaffold forward contigs named after the scaffold with their
+    position as coordinates, separated by one non-empty gap row of type scaffold (an N run), no terminal gap rows
+    """
+    for sc in inp:
+        pos = 0
+        prev = "G"
+        for r in sc["rows"]:
+            if r[0] == "G":
+                if prev == "G" or r[2] != "scaffold" or r[1] < 1:
+                    return False
+            elif prev == "F" or r[1] != sc["name"] or r[2] != pos + 1 or r[4] != 1:
+                return False
+            prev = r[0]
+            pos += pg.row_len(r)
+        if prev == "G":
+            return False
+    return True
+
+
+def input_fasta_bytes(inp, seed=7):
+    rng = random.Random(seed)
+    out = []
+    for sc in inp:
+        seq = "".join("N" * r[1] if r[0] == "G" else "".join(rng.choice("ACGT") for _ in range(pg.row_len(r))) for r in sc["rows"])
+        out.append(f">{sc['name']}\n")
+        out.extend(seq[i : i + 60] + "\n" for i in range(0, len(seq), 60))
+    return "".join(out).encode()
+
+
+def run_cli(case):
+    """
+    pretext-to-asm -a <input as AGP / TPF / FASTA> -p <PretextView AGP> -o <tmp>/out/out.<ext> -c <prefix>, in process,
+    in a temporary directory that is removed.  -> {file name: {"scaffolds": [{"name", "rows"}]}} read from every
+    assembly file written (FASTA output: from the .agp written beside each .fa), or None if the exit status is not 0
+    """
+    how = case["cli"]
+    with tempfile.TemporaryDirectory(prefix="bounded_c07_") as d:
+        d = pathlib.Path(d)
+        asm = d / f"asm.{how['in']}"
+        if how["in"] == "fa":
+            asm.write_bytes(input_fasta_bytes(case["input"]))
+        elif how["in"] == "tpf":
+            asm.write_text(pg.input_tpf_text(case["input"]))
+        else:
+            asm.write_text(pg.input_agp_text(case["input"]))
+        (d / "pretext.agp").write_text(pg.pretext_agp_text(case["map"]))
+        out_dir = d / "out"
+        out_dir.mkdir()
+        args = ["-a", asm, "-p", d / "pretext.agp", "-o", out_dir / f"out.{how['out']}", "-c", case.get("prefix", "SUPER_"), "--no-write-log", "-l", "CRITICAL"]
+        code, _, _, _ = cli_gen.run_pretext_to_asm(args)
+        if code != 0:
+            return None
+        ext = ".tpf" if how["out"] == "tpf" else ".agp"
+        files = {}
+        for p in sorted(out_dir.iterdir()):
+            if p.is_file() and p.name.endswith(ext):
+                text = p.read_text()
+                files[p.name] = {"scaffolds": read_tpf_rows(text) if ext == ".tpf" else read_agp_rows(text)}
+    return files
 
 
 def replay(inp):
@@ -290,6 +424,141 @@ def random_gap_run_inputs(rng, n):
         yield inp
 
 
+# --------------------------------------------------------------------------------------------------
+# command line families: inputs whose gaps are not the join gap, maps that join non-neighbours
+# --------------------------------------------------------------------------------------------------
+
+S100, S5000, S50 = (100, "scaffold"), (5000, "scaffold"), (50, "scaffold")
+C200, C50 = (200, "contig"), (50, "contig")
+# name -> (gaps between the 3 contigs of scaffold_1, gap between the 2 contigs of scaffold_2); None = the contigs abut
+CLI_PALETTES = {
+    "all gaps 100 bp scaffold": ((S100, S100), (S100,)),
+    "all gaps 200 bp contig": ((C200, C200), (C200,)),
+    "all gaps 10 bp contig": ((C10, C10), (C10,)),
+    "no gap row at all (contigs abut)": ((None, None), (None,)),
+    "one contig per scaffold": None,
+    "several gaps, first 5000 bp scaffold": ((S5000, S200, C1), (C25,)),
+    "several gaps, first 200 bp scaffold": ((S200, S100, C25), (C10,)),
+    "gapless first scaffold, then 50 bp contig": ((None, None), (C50,)),
+    "first gap 200 bp scaffold in the second scaffold only": ((None, None), (S200,)),
+    "AGP gap types centromere / short_arm": (((300, "centromere"), S200), ((1000, "short_arm"),)),
+    "FASTA: N runs of 100 bp": ((S100, S100), (S100,)),
+    "FASTA: N runs of 10, 5000 and 1 bp": (((10, "scaffold"), S5000), (S1,)),
+    "FASTA: N runs of 200 then 50 bp": ((S200, S50), (S100,)),
+}
+CLI_BPT = 10.0
+
+
+def cli_input(palette, i, small_tail=False):
+    """
+    three input scaffolds: scaffold_1 of 3 contigs (150, 400 and 90 or - small_tail - 7 bases: with floor rounding
+    the last one lies inside the final partial texel), scaffold_2 of 2 contigs (400, 90 / 7), scaffold_3 of one
+    (230); gaps from the palette; strands and naming style rotate with i (FASTA palettes: what a FASTA file denotes)
+    """
+    tail = 7 if small_tail else 90
+    gaps = CLI_PALETTES[palette]
+    if palette.startswith("FASTA"):
+        return [
+            pg.make_scaffold("scaffold_1", (150, 400, tail), None, list(gaps[0]), "fasta"),
+            pg.make_scaffold("scaffold_2", (400, tail), None, list(gaps[1]), "fasta"),
+            pg.make_scaffold("scaffold_3", (230,), None, None, "fasta"),
+        ]
+    naming = ("own", "offset", "fasta")[i % 3]
+    if gaps is None:
+        return [
+            pg.make_scaffold("scaffold_1", (400,), [(1, -1)[i % 2]], None, naming, tag="1"),
+            pg.make_scaffold("scaffold_2", (150,), [(1, -1)[i // 2 % 2]], None, naming, tag="2"),
+            pg.make_scaffold("scaffold_3", (230,), None, None, naming, tag="3"),
+        ]
+    return [
+        pg.make_scaffold("scaffold_1", (150, 400, tail), pg.strand_patterns(3)[i % 4], list(gaps[0]), naming, tag="1"),
+        pg.make_scaffold("scaffold_2", (400, tail), pg.strand_patterns(2)[i // 2 % 4], list(gaps[1]), naming, tag="2"),
+        pg.make_scaffold("scaffold_3", (230,), None, None, naming, tag="3"),
+    ]
+
+
+def cli_formats(inp):
+    """(input format, output format) pairs the input spec can be carried by"""
+    if fasta_ok(inp) and len(pg.contigs(inp)) > len(inp):
+        return [("fa", "fa"), ("fa", "agp"), ("agp", "tpf")]
+    fmts = [("agp", "agp"), ("agp", "tpf")]
+    if pg.tpf_ok(inp):
+        fmts += [("tpf", "tpf"), ("tpf", "agp")]
+    return fmts
+
+
+def cli_join_maps(inp, bpt, rounding):
+    """
+    maps (PretextView model: pieces on the texel grid of every input scaffold, every texel in exactly one piece or the
+    scaffold absent) that make junctions between contigs which were not neighbours in the input.  scaffold_1 is cut
+    at the texel boundary at the end of its first contig (one contig only: in its middle)
+    """
+    whole = [pg.pieces_of(sc, bpt, rounding, ())[0] for sc in inp]
+    first = inp[0]["rows"][0]
+    n1 = pg.texels(pg.rows_len(inp[0]["rows"]), bpt, rounding)
+    cut = math.floor(Fraction(pg.row_len(first)) / pg.bptF(bpt))
+    if len([r for r in inp[0]["rows"] if r[0] == "F"]) == 1:
+        cut = n1 // 2
+    p1, p2 = pg.pieces_of(inp[0], bpt, rounding, (cut,))
+    w2, w3 = whole[1], whole[2]
+
+    def pc(piece, strand, painted):
+        return [*piece[:3], strand, ["Painted"] if painted else []]
+
+    return {
+        "three scaffolds fused into one": [[pc(whole[0], 1, True), pc(w2, -1, True), pc(w3, 1, True)]],
+        "halves of scaffold_1 swapped": [[pc(p2, 1, True), pc(p1, 1, True)], [pc(w2, 1, False)], [pc(w3, 1, False)]],
+        "halves of scaffold_1 joined to other scaffolds": [[pc(p1, 1, True), pc(w2, -1, True)], [pc(w3, 1, False), pc(p2, -1, False)]],
+        "scaffold_3 absent, scaffold_2 in front of the second half": [[pc(w2, 1, False), pc(p2, 1, False)], [pc(p1, -1, True)]],
+    }
+
+
+def cli_cases(tier, rng):
+    """
+    quick: every palette x the four join maps, one (input format, output format, rounding, tail) each, rotating:
+    ~50 command line runs, plus 24 seeded edit scripts.  thorough: every palette x map x rounding x tail x format
+    pair, and 1500 seeded edit scripts (pipeline_gen.scripts_for) over the palette inputs and over seeded inputs
+    with random gaps.
+    """
+    quick = tier == "quick"
+    i = 0
+    for palette in CLI_PALETTES:
+        for tail in (False, True):
+            for rounding in ("floor", "ceil"):
+                inp = cli_input(palette, i, tail)
+                fmts = cli_formats(inp)
+                for mi, (shape, scaffolds) in enumerate(cli_join_maps(inp, CLI_BPT, rounding).items()):
+                    i += 1
+                    if quick and (tail, rounding) != ((False, "ceil"), (True, "floor"), (True, "ceil"), (False, "floor"))[(mi + len(palette)) % 4]:
+                        continue
+                    for fi, (fin, fout) in enumerate(fmts):
+                        if quick and fi != i % len(fmts):
+                            continue
+                        yield "cli-join", {
+                            "input": inp,
+                            "map": {"bpt": CLI_BPT, "scaffolds": scaffolds},
+                            "prefix": "SUPER_",
+                            "cli": {"in": fin, "out": fout, "palette": palette, "map": shape},
+                        }
+    names = list(CLI_PALETTES)
+    for k in range(24 if quick else 1500):
+        if k % 3 == 2 and not quick:
+            (inp,) = random_gap_run_inputs(rng, 1)
+            if sum(1 for r in pg.contigs(inp)) < 2:
+                continue
+            palette = "seeded gaps"
+        else:
+            palette = names[k % len(names)]
+            inp = cli_input(palette, k, rng.random() < 0.5)
+        bpt = rng.choice((10.0, 10.0, 2.5, 33.3))
+        fmts = cli_formats(inp)
+        for mp, _ in pg.scripts_for(inp, bpt, rng, 1, max_cuts=2, painted_p=0.5, uncut_p=0.4):
+            if pg.n_cut_pieces({"map": mp}) == len(mp["scaffolds"]):
+                continue  # no Pretext scaffold of two pieces: no join asked for
+            fin, fout = fmts[k % len(fmts)]
+            yield "cli-random", {"input": inp, "map": mp, "prefix": "SUPER_", "cli": {"in": fin, "out": fout, "palette": palette, "map": "seeded edit script"}}
+
+
 def drop_one_piece(case, rng):
     scs = [[list(p) for p in sc] for sc in case["map"]["scaffolds"]]
     flat = [(i, j) for i, sc in enumerate(scs) for j in range(len(sc))]
@@ -310,6 +579,10 @@ def run(tier, seed, **opts):
         "1-2 gap rows in front of the first / behind the last contig, 0/1/2-base gaps, scaffolds absent from the map: "
         "enumerated geometries x every set of <= 2 breaks on, one texel next to and inside every row of the scaffold, "
         "plus seeded larger ones), a junction's gap rows judged together against the whole input run or one join gap; "
+        "the real pretext-to-asm command line on AGP / TPF / FASTA inputs whose gaps are not 200 bp / scaffold (other "
+        "lengths, type contig, no gap, several different gaps, first gap 200 / scaffold or not) with maps that fuse whole "
+        "scaffolds, swap or re-join halves of a cut scaffold, leave scaffolds out, plus seeded edit scripts: the written "
+        "AGP / TPF files read back by this module's own readers and judged with the same oracle; "
         "non-trivial = distinct completed case whose outputs contain >= 1 junction"
     )
     quick = tier == "quick"
@@ -373,6 +646,11 @@ def run(tier, seed, **opts):
             if pg.n_cut_pieces(case) >= 2 and rng.random() < 0.3:
                 one(drop_one_piece(case, rng), "gaprun-dropped", True, ("dropped-piece-map",))
     stats.pop("gr_i", None)
+    # the tool's own command line: inputs whose gaps are not the join gap, maps joining non-neighbours
+    for fam, case in cli_cases(tier, rng):
+        if col.full:
+            break
+        one(case, fam)
     return col.result(
         bounds=(
             "input: 1-3 scaffolds x 1-6 contigs, contig lengths from {1,2,7,12,40,150,400,1000}, gaps none/1/10/20/25/200 of "
@@ -380,7 +658,9 @@ def run(tier, seed, **opts):
             f"per scaffold; gap-run families: {len(run_inputs)} enumerated geometries of 1-3 contigs (7/12 bases) with runs of <= 3 gap "
             f"rows from {{0,1,2,3,10,25,200}} bases between contigs and at the scaffold ends at texel sizes {list(run_bpts)}, every set of <= 2 breaks on/next to/inside the rows "
             f"(2 pieces: {'6 seeded of the' if quick else 'all'} 16 arrangements, 3 pieces: {1 if quick else 8} seeded of 192), "
-            "seeded inputs of 1-3 scaffolds x 1-4 contigs (1-150 bases) with runs of 0-3 gap rows; <= 3 cuts "
+            "seeded inputs of 1-3 scaffolds x 1-4 contigs (1-150 bases) with runs of 0-3 gap rows; command line: "
+            f"{len(CLI_PALETTES)} gap palettes on 3 scaffolds of 3/2/1 contigs (7-400 bases) at 10 bp per texel x 4 join maps x "
+            f"{'one rotating' if quick else 'every'} (rounding, sub-texel tail, input/output format) + {24 if quick else 1500} seeded edit scripts; <= 3 cuts "
             f"per scaffold; tiny scopes ({tiny_n} cases: {pg.describe_scopes(scopes)}) enumerated fully, the rest seeded; output junctions judged: "
             f"{stats['junctions']}; runs ending in an error (not judged): {stats['errors']}; per family: "
             + ", ".join(f"{k}={v}" for k, v in sorted(stats.items()) if k not in ("errors", "junctions"))
